@@ -21,7 +21,7 @@ THEMES = {
     "balance": (CP + ["load_account", "transfer", "selfdestruct", "create_account_checkpoint", "inc_nonce", "touch"], [0, 1, 2], [0], [3, 16, 17], [0, 1]),
     "storage": (CP + ["load_account", "initial_account_load", "sload", "sstore", "create_account_checkpoint", "tstore", "tload"], [0], [0, 1], [3, 16, 17], [0, 1]),
     "misc": (CP + ["load_code", "set_code", "log", "tstore", "touch", "finalize", "inc_nonce", "selfdestruct"], [0], [0, 1], [3, 16, 17], [0, 1]),
-    "nested": (CP + ["load_account", "transfer", "sstore", "tstore", "log", "inc_nonce"], [1], [0, 1], [16, 17], [1]),
+    "nested": (CP + ["load_account", "transfer", "sstore", "tstore", "log", "inc_nonce"], [1], [0, 1], [16, 17], [0]),
     "all": (ALL_OPS, [0, 1, 2], [0, 1, 2], [3, 16, 17], [0, 1]),
 }
 DBS = {
